@@ -2,6 +2,8 @@
 #include "hx.h"
 #include <ascon/aead.h>
 #include <ascon/aead-masked.h>
+#include <ascon/siv.h>
+#include <ascon/isap.h>
 #include <ascon/masking.h>
 
 static std::string op_aem(const Toks &t) {
@@ -38,13 +40,17 @@ static std::string op_aem(const Toks &t) {
 }
 static Reg r_aem("AEM", op_aem);
 
-template <class C> static std::string cpp_run(const Toks &t, size_t klen) {
+// key constructors: C(key) for the AEAD and SIV classes, C(key, len) for the ISAP classes
+template <class C, bool LEN> struct MkObj { static C *make(const unsigned char *k, size_t) { return new C(k); } };
+template <class C> struct MkObj<C, true> { static C *make(const unsigned char *k, size_t klen) { return new C(k, klen); } };
+
+template <class C, bool LEN = false> static std::string cpp_run(const Toks &t, size_t klen) {
     bool enc = t[2] == "ENC";
     std::vector<unsigned char> k = unhex(t[3]), n = unhex(t[4]), ad = unhex(t[5]), in = unhex(t[6]);
     std::string path = t.size() > 7 ? t[7] : "ctor";
     C *obj;
     if (path == "setkey") { obj = new C(); if (!obj->set_key(k.data(), klen)) { delete obj; return "SETKEY-FAILED"; } }
-    else obj = new C(k.data());
+    else obj = MkObj<C, LEN>::make(k.data(), klen);
     obj->set_nonce(n.data(), n.size());
     std::string res;
     if (t.size() > 8 && t[8] == "BA") {
@@ -71,3 +77,18 @@ static std::string op_aec(const Toks &t) {
     return "UNSUPPORTED";
 }
 static Reg r_aec("AEC", op_aec);
+
+// SIVC / ISAPC <v> ENC|DEC <k> <n> <ad> <in> [ctor|setkey [BA]]: the SIV and ISAP modes through their C++ classes
+static std::string op_sivc(const Toks &t) {
+    if (t[1] == "128") return cpp_run<ascon::siv128>(t, 16);
+    if (t[1] == "128a") return cpp_run<ascon::siv128a>(t, 16);
+    if (t[1] == "80pq") return cpp_run<ascon::siv80pq>(t, 20);
+    return "UNSUPPORTED";
+}
+static std::string op_isapc(const Toks &t) {
+    if (t[1] == "128") return cpp_run<ascon::isap128, true>(t, 16);
+    if (t[1] == "128a") return cpp_run<ascon::isap128a, true>(t, 16);
+    if (t[1] == "80pq") return cpp_run<ascon::isap80pq, true>(t, 20);
+    return "UNSUPPORTED";
+}
+static Reg r_sivc("SIVC", op_sivc), r_isapc("ISAPC", op_isapc);
